@@ -2,7 +2,7 @@
    They hold for ALL forecasting kernels (lfit / lpred abstract), series and histories. *)
 From Coq Require Import ZArith QArith List Bool.
 Require Import SkV.Lib.Base SkV.C09.Model SkV.C09.Cases SkV.C09.Proofs SkV.C10.Model SkV.C10.Cases
-        SkV.C10.Proofs.
+        SkV.C10.Proofs SkV.C10.Comp SkV.C10.Site SkV.C10.Bridge.
 Require SkV.C01.Model.
 Import ListNotations.
 Open Scope Z_scope.
@@ -95,6 +95,43 @@ Section Statements.
     let s' := fst (do_predict' l s fh) in
     fcut lpar s' = fcut lpar s /\ fmem lpar s' = fmem lpar s /\ fpar lpar s' = fpar lpar s.
   Proof. exact (predict_is_read_only leaf lpar lpred). Qed.
+  (* ---- through the bridge: the inherited methods REGENERATED from base/_sktime.py on this run
+     (Site.v), at the leaf object, are the model's ... *)
+  Local Notation G_update' := (G_update leaf lpar lfit ldefwl).
+  Local Notation G_predict' := (G_predict leaf lpar lpred ldefwl).
+  Local Notation G_ups' := (G_update_predict_single leaf lpar lfit lpred lsetsfh ldefwl).
+  Local Notation G_update_predict' := (G_update_predict leaf lpar lfit lpred lsetsfh ldefwl).
+
+  Theorem C10_site_methods_are_the_model : forall l,
+    (forall s y up, G_update' l s y up = do_update' l s y up) /\
+    (forall s fh, G_predict' l s fh = do_predict' l s fh) /\
+    (forall s y fh up, G_ups' l s y fh up = do_ups' l s y fh up) /\
+    (forall s y cv up, G_update_predict' l s y cv up = do_update_predict' l s y cv up).
+  Proof.
+    exact (fun l =>
+      conj (bridge_update leaf lpar lfit ldefwl l)
+     (conj (bridge_predict leaf lpar lpred ldefwl l)
+     (conj (bridge_update_predict_single leaf lpar lfit lpred lsetsfh ldefwl l)
+           (bridge_update_predict leaf lpar lfit lpred lsetsfh ldefwl l)))).
+  Qed.
+
+  (* ... hence: the regenerated update is the model's update, so a refitting update leaves exactly
+     the state of a fresh fit on new.combine_first(old) with the horizon seen so far; any list of
+     regenerated updates leaves the merge of all batches; the regenerated update_predict restores
+     the forecaster's own cutoff whatever happens *)
+  Theorem C10_site_refit_on_update_equals_fresh_fit : forall l (s : fstateT) y,
+    G_update' l s y true = (fit_state' l (cfirst y (fmem lpar s)) (ffh lpar s), true).
+  Proof. exact (site_refit_on_update_equals_fresh_fit leaf lpar lfit ldefwl). Qed.
+
+  Theorem C10_site_memory_after_updates : forall l (ups : list (series * bool)) (s : fstateT),
+    fmem lpar (fold_left (fun s u => fst (G_update' l s (fst u) (snd u))) ups s) =
+    merge_all (map fst ups) (fmem lpar s).
+  Proof. exact (site_memory_after_updates leaf lpar lfit ldefwl). Qed.
+
+  Theorem C10_site_update_predict_restores_cutoff : forall l (s : fstateT) y cv up,
+    fcut lpar (fst (G_update_predict' l s y cv up)) = fcut lpar s.
+  Proof. exact (site_update_predict_restores_cutoff leaf lpar lfit lpred lsetsfh ldefwl). Qed.
+
 End Statements.
 
 (* "union, later values win": what merge_all means, pointwise *)
@@ -141,6 +178,35 @@ Proof.
   destruct f; try exact I. exact H.
 Qed.
 
+(* the same regenerated inherited methods at the composites of the C09 model are the composite
+   history model of Comp.v (what the correspondence runs for ensembles, pipelines, multiplexers and
+   stacking forecasters), and restore the composite's OWN cutoff *)
+Theorem C10_site_composite_methods_are_the_model :
+  forall (leaf lpar : Type) lfit lpred (tr tpar : Type) tupd tapp tinv tskip thasupd
+         (reg rpar : Type) rpred (s : st leaf lpar tr tpar reg rpar),
+    (forall fh, KG_predict leaf lpar lpred tr tpar tinv tskip reg rpar rpred s fh =
+                k_predict leaf lpar lpred tr tpar tinv tskip reg rpar rpred s fh) /\
+    (forall y fh up,
+       KG_update_predict_single leaf lpar lfit lpred tr tpar tupd tapp tinv tskip thasupd reg rpar
+                                rpred s y fh up =
+       k_ups leaf lpar lfit lpred tr tpar tupd tapp tinv tskip thasupd reg rpar rpred s y fh up) /\
+    (forall y cv up,
+       KG_update_predict leaf lpar lfit lpred tr tpar tupd tapp tinv tskip thasupd reg rpar rpred
+                         s y cv up =
+       k_update_predict leaf lpar lfit lpred tr tpar tupd tapp tinv tskip thasupd reg rpar rpred
+                        s y cv up).
+Proof. exact site_comp_methods_are_the_model. Qed.
+
+Theorem C10_site_composite_update_predict_restores_cutoff :
+  forall (leaf lpar : Type) lfit lpred (tr tpar : Type) tupd tapp tinv tskip thasupd
+         (reg rpar : Type) rpred (s : st leaf lpar tr tpar reg rpar) y cv up,
+    is_bad leaf lpar tr tpar reg rpar s = false ->
+    K_get_cutoff leaf lpar tr tpar reg rpar
+      (fst (KG_update_predict leaf lpar lfit lpred tr tpar tupd tapp tinv tskip thasupd reg rpar
+                              rpred s y cv up)) =
+    K_get_cutoff leaf lpar tr tpar reg rpar s.
+Proof. exact site_comp_update_predict_restores_cutoff. Qed.
+
 Print Assumptions C10_memory_after_every_call.
 Print Assumptions C10_memory_after_updates.
 Print Assumptions C10_refit_on_update_equals_fresh_fit.
@@ -153,6 +219,12 @@ Print Assumptions C10_predict_is_read_only.
 Print Assumptions C10_memory_is_union_newer_wins.
 Print Assumptions C10_union_of_consecutive_batches_is_append.
 Print Assumptions C10_composite_own_memory_and_cutoff.
+Print Assumptions C10_site_methods_are_the_model.
+Print Assumptions C10_site_refit_on_update_equals_fresh_fit.
+Print Assumptions C10_site_memory_after_updates.
+Print Assumptions C10_site_update_predict_restores_cutoff.
+Print Assumptions C10_site_composite_methods_are_the_model.
+Print Assumptions C10_site_composite_update_predict_restores_cutoff.
 
 (* Non-vacuity: a history with overlapping data, a refit, a no-parameter update and an
    update_predict over a sliding splitter, in the semantics of the leaf double; the snapshots
